@@ -324,7 +324,7 @@ func genMsgKinds(c *Ctx) {
 	c.run("enc", "PortMod(Header(4,16,40,7),3,x0102030405,x0a0b0c0d0e0f1011,x2122,1,2,3,x3132333435)")
 	c.run("enc", "PortMod(Header(4,16,40,7),3,x01,x0a0b,x21,287454020,1432778632,2578103244,x31)")
 	for _, p := range []uint64{0, 1, 65535, 4294967295, 4294967296, 1 << 40} {
-		c.run("prog", fmt.Sprintf("m=NewPortMod(%d);!m", p))
+		c.run("prog", fmt.Sprintf("m=NewPortMod(%d);$m.Xid=7;!m", p))
 	}
 	c.run("prog", "m=NewPortMod(3);$m.Xid=7;$m.Config=1;$m.Mask=1;$m.Advertise=4294967295;$m.HWAddr=x0a0b0c0d0e0f;!m")
 
